@@ -19,9 +19,9 @@ RULE = ("exhaustive words over {output edge, input toggle, toggle coincident wit
         "rs: input init, half of the words), stages=3 length 5 (thorough 7) with all variants; PulseSynchronizer stages 2 / 3 "
         "length 6 / 5 (thorough 8 / 7), input init drawn per word, 15% negedge input domain; same-domain PulseSynchronizer "
         "(i_domain = o_domain) over {edge, toggle} length 8 (10); FFSynchronizer under the output domain's reset (family ffr: "
-        "words over {edge, input toggle, rst:=1, rst:=0}, sync / async-reset domain x reset_less True (passed or defaulted) / False, "
-        "plus 80-step walks with rst changing alone or in the same ctx.set as the edge -- a coincident rst RISE only in sync-reset "
-        "domains); FFSynchronizer power-up family: synchroniser init (absent / 0 / every value) x input Signal init (every value) "
+        "words over {edge, input toggle, rst:=1, rst:=0, rst:=1 in the same ctx.set as the edge}, sync / async-reset domain x "
+        "reset_less True (passed or defaulted) / False, plus 80-step walks with rst changing alone or in the same ctx.set as the "
+        "edge); FFSynchronizer power-up family: synchroniser init (absent / 0 / every value) x input Signal init (every value) "
         "x input = Signal or ~Signal x o of the same or another shape, widths 1..3 and 8, 12; seeded random walks of 300 steps "
         "for stages 2..5, widths 0..4 signed/unsigned, synchroniser init (absent 30% / 0 / random) independent of the input init "
         "(all-ones 30% / random / 0), 30% o of another width/signedness, async_edge pos/neg, posedge and negedge output and input "
@@ -31,16 +31,16 @@ RULE = ("exhaustive words over {output edge, input toggle, toggle coincident wit
         "non-trivial = the observed output changes at least once; distinct by case hash")
 MODELLED = ("FFSynchronizer (incl. init default, reset_less, o of another shape, sync/async output-domain reset), "
             "AsyncFFSynchronizer, ResetSynchronizer, PulseSynchronizer.elaborate and the simulator's treatment of clock edges, "
-            "simultaneous edges and asynchronous reset (process runs on rst rise, init while rst is high; F7: the whole process runs) "
+            "simultaneous edges and asynchronous reset (a rise of rst alone loads init into the resettable flops only -- /repo 574e1db, "
+            "the repair of F7 -- and an edge with rst high does the same while reset_less flops shift) "
             "are modelled in coq/Model/Cdc.v; validated only: Module/Fragment elaboration, the simulator's delta-cycle engine, "
             "RequirePosedge (which components carry it is modelled, the rejection class compared), constructor argument checks; "
-            "not generated: rst rising in the same ctx.set as the clock edge in an async-reset domain (one process run in the "
-            "simulator, not expressible as a sequence of model events); out of scope: platform overrides "
+            "out of scope: platform overrides "
             "get_ff_sync/get_async_ff_sync, max_input_delay")
 ASSUMPTIONS = ["a value driven by the testbench in the same ctx.set as a clock edge is seen by that edge (simulator semantics; "
                "modelled as the group [Ein v; edge])",
-               "C17_ff_sync_latency is about a domain whose reset is not asserted or a sync-reset domain with reset_less flops "
-               "(C17_ff_no_reset, C17_ff_reset_less_ignores_reset); async-reset domain + reset_less flops: C17_ff_async_reset_rise_refuted"]
+               "C17_ff_sync_latency carries over to any output domain for default (reset_less) flops and to any flops while the reset "
+               "is not asserted (C17_ff_reset_less_ignores_reset, C17_ff_no_reset); resettable flops: C17_ff_reset_is_power_up"]
 SHARD = 1000
 
 _HDR = {"ff": 1, "ffr": 1, "af": 1, "rs": 1, "ps": 3}      # answer = header entries, then the packed trace
@@ -112,7 +112,7 @@ def _walk(rng, n, regime, vals, two_clocks):
     return steps
 
 
-RS_LETTERS = [(1, False), (0, True), (5, False), (6, False)]    # ffr: edge, input toggle, rst:=1, rst:=0
+RS_LETTERS = [(1, False), (0, True), (5, False), (6, False), (7, False)]   # ffr: edge, input toggle, rst:=1, rst:=0, rst:=1 with the edge
 
 
 def gen_cases(tier, seed):
@@ -157,8 +157,8 @@ def gen_cases(tier, seed):
                               "ev": _toggle_word(word, i0, PS_LETTERS), "r": "exh"})
     # FFSynchronizer under the output domain's reset: words over {edge, input toggle, rst:=1, rst:=0}
     for st, n in ((2, 6 if thorough else 5), (3, 5 if thorough else 4)):
-        for word in itertools.product(range(4), repeat=n):
-            for asy, rl in variants(((False, False), (False, True), (True, False), (True, True)), thorough or st == 3):
+        for word in itertools.product(range(5), repeat=n):
+            for asy, rl in variants(((False, False), (False, True), (True, False), (True, True)), st == 3):
                 cases.append({"k": "ffr", "w": 1, "sg": False, "st": st, "init": rng.choice((None, 0, 1)), "i0": 1,
                               "async": asy, "rl": rl, "rlx": rng.random() < 0.5,
                               "ev": _toggle_word(word, 1, RS_LETTERS), "r": "exh"})
@@ -217,9 +217,9 @@ def gen_cases(tier, seed):
                     elif r < 0.85:
                         rst ^= 1
                         kind = 5 if rst else 6
-                    else:                  # rst changes in the same ctx.set as the edge (a rise: sync-reset domains only)
+                    else:                  # rst changes in the same ctx.set as the edge
                         rst ^= 1
-                        kind = (7 if not asy else 5) if rst else 2
+                        kind = 7 if rst else 2
                     ev.append([kind, v])
                 cases.append({"k": "ffr", "w": w, "sg": sg, "st": st, "init": rng.choice((None, 0, rng.randrange(lo, hi))),
                               "i0": rng.randrange(lo, hi), "async": asy, "rl": rng.random() < 0.5, "rlx": rng.random() < 0.5,
@@ -391,17 +391,19 @@ class _FFMon(_Mon):
 
 class _FFRMon(_Mon):
     """the same with the output domain's reset: at an edge resettable flops load init while rst is high; in an
-    async-reset domain a rise of rst runs the same process (reset_less flops shift: F7)."""
+    async-reset domain a rise of rst alone loads init into resettable flops and leaves reset_less flops alone."""
     def __init__(self, i_sig, rst_sig, stages, init_norm, async_reset, reset_less):
         self.i = i_sig; self.rst = rst_sig; self.n = stages; self.init = init_norm
         self.regs = [init_norm] * stages; self.a = async_reset; self.rl = reset_less; self.prev = 0
     def step(self, ctx, kind, o):
         rst = int(ctx.get(self.rst))
-        if kind in (1, 2, 7) or (self.a and rst and not self.prev):
+        if kind in (1, 2, 7):
             if rst and not self.rl:
                 self.regs = [self.init] * self.n
             else:
                 self.regs = [int(ctx.get(self.i))] + self.regs[:-1]
+        elif self.a and rst and not self.prev and not self.rl:
+            self.regs = [self.init] * self.n
         self.prev = rst
         if o != self.regs[-1]:
             self.ok = False
